@@ -12,6 +12,16 @@ import sys
 
 pid = sys.argv[1]
 extra = ""
+# optional second argument "w8": classic operator-level slips hidden in tidy-ups
+if len(sys.argv) > 2 and sys.argv[2] == "w8":
+    extra = ("Make the changes look like tidy-ups or micro-refactorings that hide a classic operator-level slip: a changed default parameter value; iteration "
+             "details (enumerate start, slice bounds, reversed / sorted where order or stability matters, zip truncation); copy versus reference of a value object or "
+             "list; string methods (strip vs rstrip / lstrip, split vs splitlines vs partition, lower / upper / casefold, startswith vs in); regular-expression "
+             "details (IGNORECASE / MULTILINE / DOTALL flags, greedy vs lazy quantifiers, anchors, character classes, optional groups); integer division and modulo, "
+             "min / max / abs / round; boolean operator precedence and De Morgan slips; `is` vs `==`, truthiness of 0 / '' / empty containers; dict.get defaults and "
+             "setdefault. Avoid the over-familiar patterns: state left on a reused reader / writer object, a memo with a coarse key, a set() making an order "
+             "hash-dependent, grouping by key instead of by run, `>` turned into `>=` on the 32-column limit, comparing times after rounding to milliseconds, a run or "
+             "begin time of zero treated as missing. ")
 # optional second argument "w7": legal-but-rare spellings, numeric precision, exception paths
 if len(sys.argv) > 2 and sys.argv[2] == "w7":
     extra = ("Look in particular for: spellings and structures that the formats allow but sample files rarely use (upper / lower case of tags and attributes, "
